@@ -140,6 +140,29 @@ UnpairedBoundOK(sa, sb, b, which, kind, li, prec) ==
        /\ DyLe(DyMul(DySq(lowr), DD), DyMul(DyMul(DySq(cm[2]), S), N2))
        /\ DyLe(DyMul(DyMul(DySq(cm[1]), S), N2), DyMul(DySq(uppr), DD))
        /\ (DyLe(aE, tol) \/ DySign(E) = want)
+\* designed pairs: the exact rational dof must be the tabulated one, and the critical value the
+\* tabulated t quantile at that real dof (no bracket)
+DesignedNuOK(sa, sb, pi) ==
+    LET P == UNuP(sa, sb)  Q == UNuQ(sa, sb)  nd == DesignedNu(pi)
+        \* P / Q = nu + 2 = (num + 2 den) / den
+    IN DyEq(DyMul(P, Dy(nd[2], 0)), DyMul(Q, Dy(BigAdd(nd[1], BigMulInt(nd[2], 2)), 0)))
+DesignedBoundOK(sa, sb, b, which, kind, li, prec, pi) ==
+    LET sg == CSign(kind, li)
+        E  == DyAdd(DySub(DyMulInt(b, sa.n * sb.n), DyMulInt(sa.s1, sb.n)), DyMulInt(sb.s1, sa.n))
+        aE == DyAbs(E)
+        cm == MagEnc(XRow(pi, OneKind(kind), li))
+        DD == DyMulInt(DyMulInt(DyOfInt(1), UDa(sa)), UDa(sb))
+        N2 == DySq(DyMulInt(DyOfInt(sa.n), sb.n))
+        S  == UNum(sa, sb)
+        tol == DyAdd(DyShift(aE, -26),
+                     DyMul(U8(prec), DyMulInt(DyAdd(DyMulInt(sa.sabs, sb.n), DyMulInt(sb.sabs, sa.n)), 4)))
+        lowr == IF DyLe(aE, tol) THEN DyZero ELSE DySub(aE, tol)
+        uppr == DyAdd(aE, tol)
+        want == IF which = "hi" THEN sg ELSE -sg
+    IN /\ DyLe(DyMul(DySq(lowr), DD), DyMul(DyMul(DySq(cm[2]), S), N2))
+       /\ DyLe(DyMul(DyMul(DySq(cm[1]), S), N2), DyMul(DySq(uppr), DD))
+       /\ (DyLe(aE, tol) \/ DySign(E) = want)
+
 UnpairedNuRange(sa, sb) ==
     LET P == UNuP(sa, sb)  Q == UNuQ(sa, sb)  f == Ratiofloor(P, Q)
     IN [floor |-> f - 2, exact |-> RatioIsInt(P, Q, f)]
